@@ -205,23 +205,26 @@ def _mape_call(case, y, p, w):
 def check_mape_nonneg(case):
     y, p, w = _mape_arrays(case)
     facts = dict(constant=bool(np.all(y[1:] == y[:-1])), weights=w is not None, container=case.get("container", "array"))
+    if len(y) >= 2 and not (~np.isnan(p[1:]) & ~np.isnan(p[:-1])).any():
+        # no step has a forecast at t and t-1: nothing to average, the statement says nothing
+        return Outcome(["no-valid-step"], False)
     v = _mape_call(case, y, p, w)
     require(not np.isnan(v), "mape:nan", "ts_mape returned NaN", facts)
     require(v >= 0, "mape:negative", "ts_mape = %r" % v, facts)
     # reference value from the docstring's formula
-    lo = 1
-    if np.isnan(p[0]):
-        lo = 2
+    # a step t counts when there is a forecast at t and at t-1 (leading padding, or a hole in the forecasts, removes the steps it touches)
     ww = np.ones_like(y) if w is None else w
-    d1 = float(np.sum(np.abs(y[lo - 1:-1] - y[lo:]) * ww[lo:]))
-    d2 = float(np.sum(np.abs(p[lo:] - y[lo:]) * ww[lo:]))
+    valid = ~np.isnan(p[1:]) & ~np.isnan(p[:-1])
+    d1 = float(np.sum((np.abs(y[:-1] - y[1:]) * ww[1:])[valid]))
+    d2 = float(np.sum((np.abs(np.nan_to_num(p[1:]) - y[1:]) * ww[1:])[valid]))
     if d1 > 0:
         require(abs(v - d2 / d1) <= 1e-9 * max(1.0, abs(d2 / d1)), "mape:value",
                 "ts_mape = %r, formula gives %r" % (v, d2 / d1), facts)
     elif d2 == 0:
         require(v == 0, "mape:value-0/0", "ts_mape = %r for a perfect forecast of a constant series" % v, facts)
     return Outcome(["constant" if facts["constant"] else "varying", "weights" if w is not None else "no-weights",
-                    "nan-first" if np.isnan(p[0]) else "no-nan", "container:" + case.get("container", "array")], len(y) >= 3)
+                    "nan-first" if np.isnan(p[0]) else "no-nan", "container:" + case.get("container", "array"),
+                    "hole-in-forecasts" if np.isnan(p[1:]).any() else "no-hole"], len(y) >= 3)
 
 
 def check_mape_naive(case):
@@ -230,7 +233,7 @@ def check_mape_naive(case):
     require(abs(v - 1.0) <= 1e-12, "mape:naive-not-1", "ts_mape(naive forecast) = %r" % v,
             dict(weights=w is not None, nan_first=bool(np.isnan(p[0])), container=case.get("container", "array")))
     return Outcome(["weights" if w is not None else "no-weights", "nan-first" if np.isnan(p[0]) else "first-arbitrary",
-                    "container:" + case.get("container", "array")], len(y) >= 3)
+                    "container:" + case.get("container", "array"), "hole-in-forecasts" if np.isnan(p[1:]).any() else "no-hole"], len(y) >= 3)
 
 
 @st.composite
@@ -257,12 +260,19 @@ def _mape_cases(draw, naive=False):
             y[-1] = y[-2] + draw(st.integers(1, 64)) / 8.0
         first = draw(st.one_of(st.none(), _grid))
         p = [first] + y[:-1]
+        if n >= 6 and draw(st.integers(0, 2)) == 0:
+            # holes in the forecasts (segments forecast separately, each padded at its start); the last two steps stay forecast
+            for _ in range(draw(st.integers(1, 2))):
+                p[draw(st.integers(1, n - 4))] = None
     else:
         p = draw(st.lists(_grid, min_size=n, max_size=n))
         if draw(st.booleans()):
             p[0] = None
         if draw(st.integers(0, 4)) == 0:
             p = [p[0]] + y[1:]  # perfect forecast
+        if n >= 4 and draw(st.integers(0, 2)) == 0:
+            for _ in range(draw(st.integers(1, 2))):
+                p[draw(st.integers(1, n - 1))] = None
     w = draw(st.one_of(st.none(), st.lists(st.integers(1, 32).map(lambda k: k / 4.0), min_size=n, max_size=n)))
     return dict(y=y, p=p, w=w, container=draw(st.sampled_from(["array", "array", "list", "column", "series", "series-permuted"])),
                 series_args=draw(st.sampled_from(["both", "y", "p"])))
